@@ -172,6 +172,11 @@ class C04(PropertyCheck):
         "autoarray/inversion/pixelization/mappers/mapper_util.py:mapping_matrix_from",
         "autoarray/inversion/pixelization/mappers/mapper_util.py:data_slim_to_pixelization_unique_from",
         "autoarray/inversion/pixelization/mappers/abstract.py:AbstractMapper.unique_mappings",
+        "autoarray/inversion/linear_obj/unique_mappings.py:UniqueMappings.__init__",
+        "autoarray/dataset/imaging/w_tilde.py:WTildeImaging.__init__",
+        "autoarray/inversion/inversion/abstract.py:AbstractInversion.has",
+        "autoarray/inversion/inversion/abstract.py:AbstractInversion.total",
+        "autoarray/inversion/inversion/abstract.py:AbstractInversion.cls_list_from",
         "autoarray/inversion/pixelization/mappers/abstract.py:AbstractMapper.mapping_matrix",
         "autoarray/inversion/inversion/imaging/inversion_imaging_util.py:w_tilde_data_imaging_from",
         "autoarray/inversion/inversion/imaging/inversion_imaging_util.py:w_tilde_curvature_imaging_from",
@@ -483,8 +488,28 @@ class C04(PropertyCheck):
             pix_lengths=um.pix_lengths.astype("int"), pix_pixels=pix)
         t = mapper_tables(mapper)
         t["has_reg"] = True
+        # the tables exactly as the implementation stores them (padded arrays + length columns)
+        unique_stored = {
+            "data_to_pix_unique": [[int(v) for v in row] for row in np.asarray(um.data_to_pix_unique)],
+            "data_weights": qmat(np.asarray(um.data_weights)),
+            "pix_lengths": [int(v) for v in np.asarray(um.pix_lengths)],
+        }
+        preload_stored = {
+            "curvature_preload": qlist(np.asarray(wt.curvature_preload)),
+            "curvature_indexes": [int(v) for v in np.asarray(wt.indexes)],
+            "curvature_lengths": [int(v) for v in np.asarray(wt.lengths)],
+        }
+        # the zero filter of the preload is a float test: its structure is compared only when all
+        # arithmetic is exact (noise values powers of two; kernel and data are dyadic by construction)
+        exact = all(Fraction(v) in (F(1, 4), F(1, 2), F(1), F(2), F(4))
+                    for v, mk in zip(case["noise"], mask_from_json(case["mask"]).ravel()) if not mk)
+        # The stored arrays are handed to the model's consumers as they are; their padding values and
+        # second-axis width are NOT compared (not observable through the public API: a refactor that pads
+        # differently must stay quiet) — only what is read through the length columns matters.
         return {
             "_tables": [t],
+            "_impl_unique": unique_stored, "_impl_preload": preload_stored, "_exact": exact,
+            "data_vector_from_impl_tables": qlist(dv), "curvature_from_impl_tables": qmat(cur),
             "_kernel": {"kh": int(kern.shape[0]), "kw": int(kern.shape[1]), "vals": qlist(kern.ravel())},
             "w_tilde_data": qlist(wtd), "w_tilde": qmat(wfull), "preload_upper": qmat(upper),
             "unique_encodes": qmat(enc), "mapping_matrix": qmat(np.asarray(mapper.mapping_matrix)),
@@ -503,7 +528,9 @@ class C04(PropertyCheck):
         noise = [v for v, mk in zip(case["noise"], m) if not mk]
         if case.get("kind") == "utils":
             return [{"op": "c04.wtilde_utils", "mask": case["mask"], "kernel": impl_obs["_kernel"], "data": data,
-                     "noise": noise, "mapper": impl_obs["_tables"][0]}]
+                     "noise": noise, "mapper": impl_obs["_tables"][0],
+                     "impl_unique": impl_obs["_impl_unique"], "impl_preload": impl_obs["_impl_preload"],
+                     "pix_pixels": impl_obs["_tables"][0]["pixels"]}]
         base = {"op": "c04.inversion", "mask": case["mask"], "kernel": impl_obs["_kernel"], "data": data,
                 "noise": noise, "objs": impl_obs["_tables"], "eps": case["eps"]}
         if "_H" in impl_obs:
@@ -528,7 +555,9 @@ class C04(PropertyCheck):
                         m[a][b] += Fraction(v)
                 return qmat(m)
 
-            return {"w_tilde_data": o["w_tilde_data"], "w_tilde": o["w_tilde"],
+            stored = {"data_vector_from_impl_tables": o["data_vector_from_impl_tables"],
+                      "curvature_from_impl_tables": o["curvature_from_impl_tables"]}
+            return {**stored, "w_tilde_data": o["w_tilde_data"], "w_tilde": o["w_tilde"],
                     "preload_upper": dense(o["preload"], n),
                     "unique_encodes": dense(o["unique"], len(o["mapping_matrix"][0]) if o["mapping_matrix"] else 0),
                     "mapping_matrix": o["mapping_matrix"], "data_vector": o["data_vector"],
